@@ -38,6 +38,23 @@ def load_mutants():
             props = sorted(k for k, v in meta.get("detected_by", {}).items() if v.get("result") == "VIOLATION")
             if props:
                 out.append(dict(id=f"seed-{name}", props=props, expect="fire", patch=pp))
+    # independently written behaviour-preserving refactorings kept under /verif/twins: no check may ever report one as a
+    # violation; a check that was silent (exit 0) on it when it was recorded must stay silent
+    td = os.path.join(VERIF, "twins")
+    if os.path.isdir(td):
+        import json
+        for name in sorted(os.listdir(td)):
+            mp = os.path.join(td, name, "meta.json")
+            pp = os.path.join(td, name, "patch.diff")
+            if not (os.path.exists(mp) and os.path.exists(pp)):
+                continue
+            meta = json.load(open(mp))
+            silent = sorted(k for k, v in meta.get("checks", {}).items() if v.get("result") == "silent")
+            soft = sorted(k for k, v in meta.get("checks", {}).items() if v.get("result") == "undecided")
+            if silent:
+                out.append(dict(id=f"twin-{name}", props=silent, expect="silent", patch=pp))
+            if soft:
+                out.append(dict(id=f"twin-{name}:undecided", props=soft, expect="not-fire", patch=pp))
     for fn in sorted(os.listdir(HERE)):
         if fn.startswith("m_") and fn.endswith(".py"):
             spec = importlib.util.spec_from_file_location(fn[:-3], os.path.join(HERE, fn))
@@ -108,6 +125,8 @@ def main() -> int:
             for prop, rc, out in results:
                 want_rc = 1 if m["expect"] == "fire" else 0
                 ok = rc == want_rc
+                if m["expect"] == "not-fire":
+                    ok = rc in (0, 2)
                 if m["expect"] == "fire" and rc == 1 and m.get("mention"):
                     ok = m["mention"] in out
                 tag = "ok  " if ok else "FAIL"
